@@ -522,17 +522,12 @@ func (self *Analyzer) TypeCheck(got ast.Type, expected ast.Type, options TypeChe
 				)
 			}
 
+			// Parameters correspond by position (arguments of a call are bound in this order).
 			for expectedIdx, expectedParam := range expectedFnParams.Params {
-				var foundParam *ast.FunctionTypeParam = nil
-				for _, gotParam := range gotFnParams.Params {
-					if expectedParam.Name.Ident() == gotParam.Name.Ident() {
-						foundParam = &gotParam
-						break
-					}
-				}
+				gotParam := gotFnParams.Params[expectedIdx]
 
-				if foundParam == nil {
-					paramTypeErr := self.TypeCheck(expectedParam.Type, gotFnParams.Params[expectedIdx].Type, options)
+				if expectedParam.Name.Ident() != gotParam.Name.Ident() {
+					paramTypeErr := self.TypeCheck(expectedParam.Type, gotParam.Type, options)
 
 					// If the type is the same but only the name differs, allow this (if the option enables it).
 					if options.IgnoreFnParamNameMismatches && paramTypeErr == nil {
@@ -542,7 +537,7 @@ func (self *Analyzer) TypeCheck(got ast.Type, expected ast.Type, options TypeChe
 					return newCompatibilityErr(
 						diagnostic.Diagnostic{
 							Level:   diagnostic.DiagnosticLevelError,
-							Message: fmt.Sprintf("Parameter '%s: %s' is missing", expectedParam.Name.Ident(), expectedParam.Type),
+							Message: fmt.Sprintf("Parameter '%s: %s' is missing at position %d, found '%s'", expectedParam.Name.Ident(), expectedParam.Type, expectedIdx+1, gotParam.Name.Ident()),
 							Notes:   nil,
 							Span:    gotFn.ParamsSpan,
 						},
@@ -556,7 +551,7 @@ func (self *Analyzer) TypeCheck(got ast.Type, expected ast.Type, options TypeChe
 				}
 
 				// check type equality of the param type
-				if err := self.TypeCheck(foundParam.Type, expectedParam.Type, options); err != nil {
+				if err := self.TypeCheck(gotParam.Type, expectedParam.Type, options); err != nil {
 					return err
 				}
 			}
